@@ -37,18 +37,53 @@ theorem check_sound (hact : req.action = act) :
       intro hk hc
       simp only [Kinds] at hk
       simp only [checkExpr, List.append_eq_nil_iff] at hc
-      simp only [TExpr.erase, evaluate, check_sound hact c hk.1 hc.1, check_sound hact t hk.2.1 hc.2.1,
-        check_sound hact e hk.2.2 hc.2.2]
+      simp only [TExpr.erase, evaluate, check_sound hact c hk.1 hc.1]
+      cases hcv : evaluate req es sl c.erase with
+      | error _ => rfl
+      | ok cv =>
+        simp only
+        cases hb : cv.asBool with
+        | error _ => rfl
+        | ok b =>
+          have hcv' := hcv
+          rw [asBool_ok hb] at hcv'
+          cases b with
+          | true => exact check_sound hact t (hk.2.1 hcv') hc.2.1
+          | false => exact check_sound hact e (hk.2.2 hcv') hc.2.2
   | .and a b => by
       intro hk hc
       simp only [Kinds] at hk
       simp only [checkExpr, List.append_eq_nil_iff] at hc
-      simp only [TExpr.erase, evaluate, check_sound hact a hk.1 hc.1, check_sound hact b hk.2 hc.2]
+      simp only [TExpr.erase, evaluate, check_sound hact a hk.1 hc.1]
+      cases hav : evaluate req es sl a.erase with
+      | error _ => rfl
+      | ok av =>
+        simp only
+        cases hb : av.asBool with
+        | error _ => rfl
+        | ok bb =>
+          have hav' := hav
+          rw [asBool_ok hb] at hav'
+          cases bb with
+          | false => rfl
+          | true => simp only [check_sound hact b (hk.2 hav') hc.2]
   | .or a b => by
       intro hk hc
       simp only [Kinds] at hk
       simp only [checkExpr, List.append_eq_nil_iff] at hc
-      simp only [TExpr.erase, evaluate, check_sound hact a hk.1 hc.1, check_sound hact b hk.2 hc.2]
+      simp only [TExpr.erase, evaluate, check_sound hact a hk.1 hc.1]
+      cases hav : evaluate req es sl a.erase with
+      | error _ => rfl
+      | ok av =>
+        simp only
+        cases hb : av.asBool with
+        | error _ => rfl
+        | ok bb =>
+          have hav' := hav
+          rw [asBool_ok hb] at hav'
+          cases bb with
+          | true => rfl
+          | false => simp only [check_sound hact b (hk.2 hav') hc.2]
   | .unaryApp _ a => by
       intro hk hc
       simp only [Kinds] at hk
@@ -237,23 +272,24 @@ theorem deref_sound (hact : req.action = act) :
       simp only [derefLevel] at hl ⊢
       have hlt : derefLevel act t p < n := by omega
       have hle : derefLevel act e p < n := by omega
-      obtain ⟨et, invt⟩ := deref_sound hact t p hk.2.1 hc.2.1 hlt
-      obtain ⟨ee, inve⟩ := deref_sound hact e p hk.2.2 hc.2.2 hle
       have ec := check_sound hact c hk.1 hc.1
-      refine ⟨by simp only [TExpr.erase, evaluate, ec, et, ee], ?_⟩
-      intro val hval
-      simp only [TExpr.erase, evaluate] at hval
+      simp only [TExpr.erase, evaluate, ec]
       cases hcv : evaluate req es sl c.erase with
-      | error _ => simp [hcv] at hval
+      | error _ => exact ⟨rfl, by intro v h; cases h⟩
       | ok cv =>
-        simp only [hcv] at hval
+        simp only
         cases hb : cv.asBool with
-        | error _ => simp [hb] at hval
+        | error _ => exact ⟨rfl, by intro v h; cases h⟩
         | ok b =>
-          simp only [hb] at hval
+          have hcv' := hcv
+          rw [asBool_ok hb] at hcv'
           cases b with
-          | true => exact (invt val hval).mono (Nat.le_max_left _ _)
-          | false => exact (inve val hval).mono (Nat.le_max_right _ _)
+          | true =>
+            obtain ⟨et, invt⟩ := deref_sound hact t p (hk.2.1 hcv') hc.2.1 hlt
+            exact ⟨et, fun val hval => (invt val hval).mono (Nat.le_max_left _ _)⟩
+          | false =>
+            obtain ⟨ee, inve⟩ := deref_sound hact e p (hk.2.2 hcv') hc.2.2 hle
+            exact ⟨ee, fun val hval => (inve val hval).mono (Nat.le_max_right _ _)⟩
   | .getAttr k e attr, p => by
       intro hk hc hl
       simp only [Kinds] at hk
